@@ -2,10 +2,14 @@
 Driver op that *runs* the regenerated functions of harness/pytr_c20b.py (the rest of `htmltools/_jsx.py`) with the one
 thing the running interpreter contributes taken from the line (DESIGN §14, translator validation):
 
-  srcc20b [ (<str> <str.upper() of it>)… ] <function> [ <pval>… ]      → ok <pval> | err <kind> | unsupported
+  srcc20b [ (<str> <str.upper() of it>)… ] [ (<version string> <str(Version(it))>)… ] <function> [ <pval>… ]
+                                                                       → ok <pval> | err <kind> | unsupported
 
-The table: `str.upper()` of the strings the harness expects the function to upper-case (the initial of a JSX tag name).  A
-string that is upper-cased but is not in the table makes `pyUpperC20b` answer `unsupported` — no verdict, never a guess.
+The first table: `str.upper()` of the strings the harness expects the function to upper-case (the initial of a JSX tag name).
+A string that is upper-cased but is not in the table makes `pyUpperC20b` answer `unsupported` — no verdict, never a guess.
+The second table: what `packaging.version.Version` answers for the version strings that reach `HTMLDependency(…)` (those of
+`_versions.py`): its `str()`; the Version object is given rank 0 (`versionObjC10b 0 text`).  A string that is not in the table
+is refused (`InvalidVersion`, a ValueError) — the harness lists every string `packaging` accepts.
 The pval syntax is that of `Ops/Src.lean`.
 -/
 import HtmlVerif.Ops.Base
@@ -14,10 +18,11 @@ import HtmlVerif.Generated.Src
 namespace HtmlVerif.Ops
 open HtmlVerif HtmlVerif.Wire HtmlVerif.Py
 
-private def c20bG (tbl : List (Str × Str)) : Globals :=
+private def c20bG (tbl vers : List (Str × Str)) : Globals :=
   { HTML_ESCAPE_TABLE := embTbl cfg.textTbl, HTML_ATTRS_ESCAPE_TABLE := embTbl cfg.attrTbl,
     VOID_TAG_NAMES := cfg.void, NO_ESCAPE_TAG_NAMES := cfg.noesc, isSpace := fun _ => false, lower := id,
-    upperC20b := fun s => alookup s tbl }
+    upperC20b := fun s => alookup s tbl,
+    mkVersion := fun s => (alookup s vers).map (versionObjC10b 0) }
 
 private partial def c20bPVal : P PVal := do
   let t ← next
@@ -70,9 +75,10 @@ private def c20bErr : PyErr → String
 def srcC20bOps : OpTable
   | "srcc20b" => some do
     let tbl ← listOf kv
+    let vers ← listOf kv
     let f ← next
     let a ← listOf c20bPVal
-    match Generated.Src.runByName (c20bG tbl) f a with
+    match Generated.Src.runByName (c20bG tbl vers) f a with
     | none => pure "unsupported"      -- not translated (left the fragment) or unknown: no verdict
     | some r =>
       match r with
